@@ -119,7 +119,7 @@ class ProfmodExtractor:
             recursively fetch all subpackages and submodules, convert them to dotted paths
             and add them to list to be profiled
             """
-            for submod_path in package_modpaths(modpath):
+            for submod_path in package_modpaths(modpath, with_pkg=True):
                 submod_name = modpath_to_modname(submod_path)
                 if submod_name not in modnames_to_profile:
                     modnames_to_profile.append(submod_name)
